@@ -719,8 +719,41 @@ impl<'g, 'r> ProgGen<'g, 'r> {
             if depth > 0 && shifts { 6 } else { 0 }, // byte composition with << 8 / >> 8
             if depth > 0 { 6 } else { 0 },      // leaf8 op leaf8 (widening arithmetic)
             if !calls16.is_empty() { 5 } else { 0 }, // the 8-bit result of a call, widened
+            if depth > 0 { 4 } else { 0 },      // ?: whose alternatives are 16 bits wide (or widened)
         ];
         match self.g.weighted(&w) {
+            7 => {
+                // the whole value: both bytes come from the alternative that the condition selects
+                let mut cv = self.leaf_w(fc, Ty::U8);
+                for _ in 0..4 {
+                    if Self::has_var(&cv) {
+                        break;
+                    }
+                    cv = self.leaf_w(fc, Ty::U8);
+                }
+                if !Self::has_var(&cv) {
+                    return self.leaf_w(fc, want);
+                }
+                let k = Expr::lit(*self.g.pick(&[0, 1, 2, 128, 255]));
+                let c = match self.g.below(4) {
+                    0 => cv,
+                    1 => Expr::bin(BinOp::Ne, cv, k),
+                    2 => Expr::bin(BinOp::Eq, cv, k),
+                    _ => Expr::bin(if self.g.chance(1, 2) { BinOp::Lt } else { BinOp::Ge }, cv, Expr::lit(*self.g.pick(&[1, 2, 128, 200]))),
+                };
+                let wt = if self.g.chance(2, 3) { want } else { t8 };
+                let a = self.leaf_w(fc, wt);
+                let mut b = self.leaf_w(fc, wt);
+                let sa = self.signed_of(fc, &a);
+                for _ in 0..6 {
+                    let sb = self.signed_of(fc, &b);
+                    if sa.is_none() || sb.is_none() || sa == sb {
+                        break;
+                    }
+                    b = self.leaf_w(fc, wt);
+                }
+                Expr::Ternary(Box::new(c), Box::new(a), Box::new(b))
+            }
             6 => {
                 // the function is called once, whatever the number of bytes of the destination
                 let fi = *self.g.pick(&calls16);
@@ -762,7 +795,9 @@ impl<'g, 'r> ProgGen<'g, 'r> {
                 let op = if self.g.chance(1, 2) { UnOp::Neg } else { UnOp::BNot };
                 Expr::Un(op, Box::new(self.leaf_w(fc, want)))
             }
-            4 => match self.g.below(6) {
+            4 => match self.g.below(7) {
+                // a 16-bit value shifted left by less than a byte (bits move from the low to the high byte)
+                6 => Expr::bin(BinOp::Shl, self.leaf_w(fc, want), Expr::lit(1 + self.g.below(7) as i32)),
                 // an 8-bit value shifted right, widened by the 16-bit destination: the high byte is the sign
                 4 | 5 => Expr::bin(BinOp::Shr, self.leaf_w(fc, t8), Expr::lit(self.g.below(8) as i32)),
                 0 => Expr::bin(BinOp::Shl, self.leaf_w(fc, Ty::U8), Expr::lit(8)),
@@ -1912,10 +1947,38 @@ impl<'g, 'r> ProgGen<'g, 'r> {
                 ];
             }
         }
-        let pick = self.g.below(if self.cfg.addr_low_byte { 50 } else { 47 });
+        let pick = self.g.below(if self.cfg.addr_low_byte { 53 } else { 50 });
         // (38..40 need cfg.addr_low_byte; the numbering of the other patterns is kept)
         let pick = if !self.cfg.addr_low_byte && pick >= 38 { pick + 3 } else { pick };
         match pick {
+            50 | 51 | 52 => {
+                // a 16-bit element stepped through an index register and tested right away: the flags left by
+                // the step are those of one of its bytes only
+                let wa: Vec<(String, Ty, usize)> = self.arrays(fc, Some(false), true);
+                let reg = if !px && (py || self.g.chance(2, 3)) { "X" } else if !py { "Y" } else { return vec![self.assign_stmt(fc)] };
+                if wa.is_empty() {
+                    return vec![self.assign_stmt(fc)];
+                }
+                let (ar, aty, n) = self.g.pick(&wa).clone();
+                let i = self.g.below(n.min(100)) as i32;
+                let start = *self.g.pick(&[0x00ff, 0xffff, 0x0100, 0, 1, 0x7fff, 0x01ff, 0x007f, 0x0080, 0x8000]);
+                let up = self.g.chance(2, 3);
+                let el = LValue::Index(ar.clone(), Box::new(Expr::var(reg)));
+                let mut out = vec![
+                    Stmt::Expr(Expr::assign(LValue::Index(ar.clone(), Box::new(Expr::lit(i))), Expr::Lit(start, LitFmt::Hex))),
+                    Stmt::Expr(Expr::assign(LValue::Var(reg.into()), Expr::lit(i))),
+                    Stmt::Expr(Expr::IncDec(up, self.g.chance(1, 2), el.clone())),
+                ];
+                let cond = match self.g.below(if aty == Ty::I16 { 7 } else { 3 }) {
+                    3 | 4 => Expr::bin(BinOp::Lt, Expr::Lv(el), Expr::lit(0)),
+                    5 | 6 => Expr::bin(BinOp::Ge, Expr::Lv(el), Expr::lit(0)),
+                    0 => Expr::Lv(el),
+                    1 => Expr::bin(BinOp::Ne, Expr::Lv(el), Expr::lit(0)),
+                    _ => Expr::bin(BinOp::Eq, Expr::Lv(el), Expr::lit(0)),
+                };
+                out.push(Stmt::If(cond, Box::new(Stmt::Expr(Expr::assign(LValue::Var(a.clone()), Expr::lit(k + 1)))), None));
+                out
+            }
             44 | 45 | 46 => {
                 // one array read through both index registers in two tests that follow each other: what the
                 // flags describe after the first is not what the second needs, although only the register differs
